@@ -42,20 +42,23 @@ def parseParams (op obs : String) : Params :=
     ya := unhex! (kvStr o "ya"), yb := unhex! (kvStr o "yb"), s := unhex! (kvStr o "s"),
     req1 := unhex! (kvStr o "req1"), req3 := unhex! (kvStr o "req3"), hsk := hsk, ks := ks }
 
-/-- The `Crypto` of one case.  Anything the harness did not supply is the empty string / zero
-key-stream; a model run that needs such a value disagrees with the implementation and is reported. -/
+/-- The `Crypto` of one case.  For arguments the harness supplied no value for (e.g. the secret
+derived from a garbage public key) the functions return lists of numbers ≥ 256: "some value that
+does not occur in any byte stream" — the reading under which the named no-early-match hypothesis
+holds.  A model run that needs a real value there disagrees with the implementation and is
+reported. -/
 def Params.crypto (p : Params) : Crypto where
-  pub x := if x = p.xa then p.ya else if x = p.xb then p.yb else []
-  dh y x := if (y = p.yb ∧ x = p.xa) ∨ (y = p.ya ∧ x = p.xb) then p.s else []
-  req1 s := if s = p.s then p.req1 else []
-  req3 s := if s = p.s then p.req3 else []
-  hashSKey k := match p.hsk.find? (·.1 = k) with | some (_, h) => h | none => []
+  pub x := if x = p.xa then p.ya else if x = p.xb then p.yb else List.replicate 96 999
+  dh y x := if (y = p.yb ∧ x = p.xa) ∨ (y = p.ya ∧ x = p.xb) then p.s else [999]
+  req1 s := if s = p.s then p.req1 else List.replicate 20 1000
+  req3 s := if s = p.s then p.req3 else List.replicate 20 1001
+  hashSKey k := match p.hsk.find? (·.1 = k) with | some (_, h) => h | none => List.replicate 20 1002
   ks a s k := fun i =>
     if s = p.s then
       match p.ks.find? (fun e => e.1 = a ∧ e.2.1 = k) with
-      | some (_, _, arr) => arr[i]?.getD 0
-      | none => 0
-    else 0
+      | some (_, _, arr) => arr[i]?.getD 1003
+      | none => 1003
+    else 1003
 
 def bit (n : Nat) : Nat := 2 ^ n
 
